@@ -27,6 +27,10 @@ pub struct BuildCfg {
     /// libcnb-test compiles and packages it into a temporary directory first
     #[serde(default)]
     pub own_buildpack: Option<(usize, bool)>,
+    /// how the environment pairs are handed over: 0 one `env` call each, 1 one `envs` call,
+    /// 2 `env` for the first half then `envs` for the rest, 3 two `envs` calls
+    #[serde(default)]
+    pub env_style: u8,
 }
 
 #[derive(Clone, Debug, PartialEq, Serialize, Deserialize)]
@@ -36,6 +40,9 @@ pub struct ContainerCfg {
     pub env: Vec<(String, String)>,
     pub ports: Vec<u16>,
     pub mounts: Vec<(String, String)>,
+    /// as `BuildCfg::env_style`
+    #[serde(default)]
+    pub env_style: u8,
 }
 
 #[derive(Clone, Debug, PartialEq, Serialize, Deserialize)]
@@ -90,6 +97,14 @@ pub struct Scenario {
     /// the crate under test does not compile (packaging its buildpack fails)
     #[serde(default)]
     pub crate_broken: bool,
+    /// further, independent `TestRunner::build` calls made by the same test process after the
+    /// first one (each with its own image and volumes)
+    #[serde(default)]
+    pub more_roots: Vec<BuildNode>,
+    /// the test process's current directory is not CARGO_MANIFEST_DIR (another test changed it,
+    /// or a runner other than cargo started the binary); a decoy `fixtures/app` lives there
+    #[serde(default)]
+    pub cwd_elsewhere: bool,
 }
 
 const TRICKY: [&str; 14] = [
@@ -143,6 +158,7 @@ fn gen_container(r: &mut Rng) -> ContainerCfg {
         env: gen_env(r),
         ports,
         mounts,
+        env_style: r.below(4) as u8,
     }
 }
 
@@ -162,6 +178,7 @@ fn gen_build(r: &mut Rng, depth: u32) -> BuildNode {
         expect_failure,
         pack_fails,
         own_buildpack: None,
+        env_style: r.below(4) as u8,
     };
     let mut cfg = cfg;
     if r.chance(1, 6) {
@@ -224,6 +241,8 @@ pub fn generate(seed: u64) -> Scenario {
         },
         fixture_uncopyable: r2.chance(1, 8),
         crate_broken: r2.chance(1, 6),
+        more_roots: if r2.chance(1, 5) { vec![gen_build(&mut r2, 1)] } else { Vec::new() },
+        cwd_elsewhere: r2.chance(1, 4),
     }
 }
 
